@@ -33,6 +33,9 @@ func init() {
 }
 
 func runC07Process(c *sim.Ctx, t *testing.T) {
+	// several hundred walks per run: map order is not this check's subject, and
+	// permuting every range would use up the tape
+	c.PermuteOff = true
 	sim.Install(c)
 	defer sim.Uninstall()
 	cfg := genCfg{native: true, stubs: true, failOps: true, nullRet: true, permanents: true, badBranch: true, guards: true, guardEmits: true, loops: true, maxNodes: 4}
